@@ -463,6 +463,17 @@ pub struct Rule {
     pub true_negatives: Vec<Yaml>,
 }
 
+// NOTE: `all(X)` and `of(X, n)` count the entries of the identifier `X`, so when an identifier is a
+// group it has to stay the group that was written, only its entries can be restructured.
+fn optimise_identifier(expression: Expression, pass: fn(Expression) -> Expression) -> Expression {
+    match expression {
+        Expression::BooleanGroup(symbol, expressions) => {
+            Expression::BooleanGroup(symbol, expressions.into_iter().map(pass).collect())
+        }
+        expression => pass(expression),
+    }
+}
+
 impl Rule {
     /// Load a rule from a YAML file.
     pub fn load(path: &Path) -> crate::Result<Self> {
@@ -499,7 +510,7 @@ impl Rule {
                 .detection
                 .identifiers
                 .into_iter()
-                .map(|(k, v)| (k, optimiser::shake(v)))
+                .map(|(k, v)| (k, optimise_identifier(v, optimiser::shake)))
                 .collect();
         }
         if options.rewrite {
@@ -517,7 +528,7 @@ impl Rule {
                 .detection
                 .identifiers
                 .into_iter()
-                .map(|(k, v)| (k, optimiser::matrix(v)))
+                .map(|(k, v)| (k, optimise_identifier(v, optimiser::matrix)))
                 .collect();
         }
         self.optimised = true;
